@@ -1271,8 +1271,8 @@ fn cast_into_memory(
             let id = builder.ins().iconst(types::I32, id as i64);
 
             if let Some(memory) = memory {
-                assert_eq!(cast_from.align(), cast_to.align());
-
+                // `memory` is the place of the `type` value (a 4 byte id), the zero-sized
+                // `cast_from` has no layout in common with it
                 memory.write_val(builder, id, 0);
             }
 
